@@ -69,6 +69,11 @@ type pipe struct {
 	wtimer *time.Timer
 	rtimer *time.Timer
 
+	// number of deadlines set so far: a timer that fires while (or after) its deadline is
+	// being replaced or cleared must not mark the pipe as timed out
+	wdeadline uint64
+	rdeadline uint64
+
 	closed      bool
 	writeClosed bool
 }
@@ -220,10 +225,15 @@ func (c *conn) SetReadDeadline(t time.Time) error {
 	defer p.mu.Unlock()
 	p.rtimer.Stop()
 	p.rtimedout = false
+	p.rdeadline++
 	if !t.IsZero() {
+		current := p.rdeadline
 		p.rtimer = time.AfterFunc(time.Until(t), func() {
 			p.mu.Lock()
 			defer p.mu.Unlock()
+			if p.rdeadline != current {
+				return
+			}
 			p.rtimedout = true
 			p.rwait.Broadcast()
 		})
@@ -237,10 +247,15 @@ func (c *conn) SetWriteDeadline(t time.Time) error {
 	defer p.mu.Unlock()
 	p.wtimer.Stop()
 	p.wtimedout = false
+	p.wdeadline++
 	if !t.IsZero() {
+		current := p.wdeadline
 		p.wtimer = time.AfterFunc(time.Until(t), func() {
 			p.mu.Lock()
 			defer p.mu.Unlock()
+			if p.wdeadline != current {
+				return
+			}
 			p.wtimedout = true
 			p.wwait.Broadcast()
 		})
